@@ -1,6 +1,11 @@
 """C19 — HTML import is total and schema-valid; export then import is the identity.
 
 Only part of this property is logic a model can carry; the rest lives in lxml, cssselect and `re`.
+Import side (PM/FromDom.lean): `ParseContext.matches_context` (exact tie on real ParseContext objects with generated
+stacks x generated expressions; theorem matchesContext_spec) and the node-placement core (find_place, insert_node,
+enter, enter_inner, close_extra, sync, finish, NodeContext.find_wrapping / finish, pending / active / stash marks),
+tied by recorded events of real `parse` / `parse_slice` runs (theorems placement_match_coherent,
+placement_finish_valid_partial).
 Lean part (Props/C19.lean): the escaping contract of the serializer (`unescape (escape s) = s`, output
 free of raw `< > & "`) and the mark-nesting discipline of `serialize_fragment` (model PM/Dom.lean),
 tied by exact correspondence of the serialised HTML of generated documents.
@@ -16,11 +21,12 @@ import re
 import lxml.html
 
 from prosemirror.model import DOMParser, DOMSerializer, Fragment, Node, Schema
-from prosemirror.model.from_dom import from_html
+from prosemirror.model import from_dom as from_dom_mod
+from prosemirror.model.from_dom import NodeContext, ParseContext, ParseOptions, from_html
 from prosemirror.schema.basic import schema as basic_schema
 from prosemirror.test_builder import test_schema as list_schema
 
-from .. import core, gen, schemas
+from .. import codec, core, gen, schemas
 from ..core import outcome
 from ..validator import validator
 
@@ -106,6 +112,32 @@ def context_schema():
     return Schema({"nodes": nodes, "marks": {k: dict(v) for k, v in basic_schema.spec["marks"].items()}})
 
 
+def fill_schema():
+    """content expressions that need filling at `finish` (a section starts with a heading, a row has exactly two cells)
+    and wrappers found through several levels"""
+    nodes = {k: dict(v) for k, v in basic_schema.spec["nodes"].items()}
+    nodes["doc"] = {"content": "section+"}
+    nodes["section"] = {"content": "heading block*", "parseDOM": [{"tag": "section"}], "toDOM": lambda _: ["section", 0]}
+    nodes["table"] = {"content": "row+", "group": "block", "parseDOM": [{"tag": "table"}], "toDOM": lambda _: ["table", 0]}
+    nodes["row"] = {"content": "cell{2}", "parseDOM": [{"tag": "tr"}], "toDOM": lambda _: ["tr", 0]}
+    nodes["cell"] = {"content": "block+", "parseDOM": [{"tag": "td"}], "toDOM": lambda _: ["td", 0]}
+    return Schema({"nodes": nodes, "marks": {k: dict(v) for k, v in basic_schema.spec["marks"].items()}})
+
+
+def strip_schema():
+    """a content expression that *requires* a trailing text: NodeContext.finish strips a whitespace-only last text node
+    after `match` has advanced over it, so `<figure><br><img src="a"> </figure>` parses to an invalid fig(hard_break, image).
+    Used for the model tie only (the model must reproduce the invalid document); TextStable fails for this schema."""
+    nodes = {k: dict(v) for k, v in basic_schema.spec["nodes"].items()}
+    nodes["fig"] = {"content": "hard_break image? (text | hard_break)", "group": "block", "parseDOM": [{"tag": "figure"}],
+                    "toDOM": lambda _: ["figure", 0]}
+    return Schema({"nodes": nodes, "marks": {k: dict(v) for k, v in basic_schema.spec["marks"].items()}})
+
+
+EDGE_HTML = ['<figure><br><img src="a"> </figure>', '<figure><br><img src="a">x</figure>', '<figure><br><img src="a"></figure>',
+             '<figure> <br> <img src="a"> <b> </b></figure>', '<p>a</p><figure><br> </figure> <figure></figure>']
+
+
 def whitespace_normal(doc):
     """text that HTML whitespace collapsing leaves alone: outside code blocks no tab/newline, no double space, and no
     space at the start or end of a textblock or next to a hard break / block boundary"""
@@ -146,6 +178,279 @@ def carried_attrs(doc):
     return ok[0] and doc.attrs.get("meta") is None
 
 
+# ---------------------------------------------------------------------------------------------
+# tie of ParseContext.matches_context (PM/FromDom.lean: matchesContext)
+
+PY_SPACES = [" ", " ", "  ", "\t", "\n", "\u00a0", "\u2003", "\x1c", "\x85", "\u3000", "\u200b"]   # the last one is NOT \s
+
+
+def gen_context_expr(rng, info, visible):
+    """a context expression: names / groups / unknown names, `/`, `//`, leading, trailing and doubled slashes, `|` with
+    whitespace; biased towards expressions derived from the visible ancestors so that matches happen"""
+    schema = info.schema
+    names = list(schema.nodes.keys())
+    groups = sorted({g for t in schema.nodes.values() for g in t.groups}) or ["block"]
+
+    def one():
+        parts = []
+        if visible and rng.random() < 0.7:
+            k = rng.randint(1, min(4, len(visible)))
+            for t in visible[-k:]:
+                r = rng.random()
+                if r < 0.55:
+                    parts.append(t.name)
+                elif r < 0.75 and t.groups:
+                    parts.append(rng.choice(t.groups))
+                elif r < 0.9:
+                    parts.append("")
+                else:
+                    parts.append(rng.choice(names + groups))
+            if rng.random() < 0.3:
+                parts.insert(rng.randint(0, len(parts)), "")
+        else:
+            for _ in range(rng.randint(0, 4)):
+                r = rng.random()
+                parts.append(rng.choice(names) if r < 0.45 else rng.choice(groups) if r < 0.65 else "" if r < 0.85
+                             else rng.choice(["zzz", "Doc", "p", " ", "doc ", "block|"]).replace("|", ""))
+        e = "/".join(parts)
+        r = rng.random()
+        if r < 0.45:
+            e += "/"
+        elif r < 0.6:
+            e += "//"
+        if rng.random() < 0.15:
+            e = "/" + e
+        if rng.random() < 0.07:
+            e = "/" + e
+        if rng.random() < 0.06:
+            e = rng.choice(PY_SPACES) + e
+        if rng.random() < 0.06:
+            e = e + rng.choice(PY_SPACES)
+        return e
+    alts = [one() for _ in range(1 if rng.random() < 0.6 else rng.randint(2, 3))]
+    out = alts[0]
+    for a in alts[1:]:
+        out += rng.choice(["", "", " "] + PY_SPACES) + "|" + rng.choice(["", "", " "] + PY_SPACES) + a
+    return out
+
+
+def context_tie(ctx, infos):
+    """drive the real `ParseContext.matches_context` on real ParseContext objects whose stack of open NodeContexts (and
+    `open`, `is_open`, `options.context`, `options.top_node`) is generated, and compare every answer with the model"""
+    rng = ctx.rng
+    reqs, metas = [], []
+    for _ in range(ctx.budget(60, 600)):
+        if ctx.time_left() < 0:
+            break
+        info = rng.choice(infos)
+        schema = info.schema
+        sid = ctx.driver.add_schema(info)
+        parser = DOMParser.from_schema(schema)
+        is_open = rng.random() < 0.25
+        rp = None
+        if rng.random() < 0.4:
+            d = gen.gen_doc(rng, schema, budget=rng.choice([6, 12, 25]))
+            rp = d.resolve(rng.randint(0, d.content.size))
+        top_node = None
+        if not is_open and rng.random() < 0.3:
+            cands = [t for t in schema.nodes.values() if not t.is_leaf and not t.has_required_attrs()]
+            if rp is not None and rng.random() < 0.6:
+                top_node = rp.parent.type.create()
+            else:
+                top_node = rng.choice(cands).create()
+        pc = ParseContext(parser, ParseOptions(context=rp, top_node=top_node), is_open)
+        types = [t for t in schema.nodes.values() if not t.is_text]
+        for _ in range(rng.choice([0, 0, 1, 2, 3, 4, 6])):
+            t = rng.choice(types)
+            pc.nodes.append(NodeContext(t, None, [], [], False, None, 0))
+        pc.open = rng.randint(0, len(pc.nodes) - 1) if rng.random() < 0.5 else len(pc.nodes) - 1
+        visible = []
+        if rp is not None:
+            visible += [rp.node(i).type for i in range(rp.depth + 1)]
+        visible += [n.type for n in pc.nodes[:pc.open + 1] if n.type is not None]
+        exprs = [gen_context_expr(rng, info, visible) for _ in range(8)]
+        answers = []
+        for e in exprs:
+            st, v = outcome(lambda: pc.matches_context(e), 2.0)
+            ctx.count("matches_context:" + (str(v) if st == "ok" else st))
+            answers.append(v if st == "ok" else {"raised": st, "what": v})
+            ctx.case(["matches_context", info.name, [n.type.name if n.type else None for n in pc.nodes], pc.open, is_open,
+                      None if rp is None else [rp.node(i).type.name for i in range(rp.depth + 1)], e],
+                     nontrivial=bool(e.strip("/ |")), sample={"op": "matches_context", "schema": info.name, "expr": e,
+                                                             "stack": [n.type.name if n.type else None for n in pc.nodes]})
+        req = {"op": "matchesContext", "s": sid,
+               "groups": [list(schema.nodes[n].groups) for n in info.node_names],
+               "nodes": [None if n.type is None else info.nid[n.type.name] for n in pc.nodes],
+               "open": pc.open, "isOpen": is_open,
+               "ctx": None if rp is None else [info.nid[rp.node(i).type.name] for i in range(rp.depth + 1)],
+               "exprs": exprs}
+        reqs.append(req)
+        metas.append(answers)
+    if reqs:
+        outs = ctx.driver.run(reqs)
+        for req, answers, out in zip(reqs, metas, outs):
+            ctx.count("model_requests")
+            got = out.get("ok")
+            if got != answers:
+                bad = [i for i in range(len(answers)) if not isinstance(got, list) or got[i] != answers[i]]
+                ctx.mismatch("matchesContext", dict(req, first_bad_expr=req["exprs"][bad[0]] if bad else None), answers, got if got is not None else out)
+            else:
+                ctx.count("matches_context:agree", len(answers))
+
+
+
+# ---------------------------------------------------------------------------------------------
+# recorded-event tie of the placement core (PM/FromDom.lean part B)
+#
+# A subclass of the real ParseContext (installed as `from_dom.ParseContext` only while one recorded parse runs, in this
+# process only) logs every *outermost* call the DOM walk makes into the placement core — insert_node, enter,
+# find_place, add_pending_mark, remove_pending_mark, sync, close_extra — with its arguments, and every direct write
+# of `open` / `needs_block` from outside those calls; after each event it notes what the call returned, `open` and
+# `len(nodes)`.  NodeContext arguments (sync target, `upto`) are recorded as their index in `nodes` at call time;
+# marks handed to add/remove_pending_mark carry an object-identity number (the code looks them up by identity).
+
+REC = {"info": None, "instances": []}
+
+
+def _enc_attrs(attrs):
+    return None if attrs is None else [[k, codec.jval(v)] for k, v in attrs.items()]
+
+
+class RecordingParseContext(ParseContext):
+    def __init__(self, parser, options, is_open):
+        self._depth = 1            # nothing is recorded during construction
+        self._events, self._obs, self._mark_ids, self._keep = [], [], {}, []
+        self._result = None
+        self._info = REC["info"]
+        super().__init__(parser, options, is_open)
+        self._depth = 0
+        self._init = {"isOpen": bool(is_open), "pw": options.preserve_whitespace, "topOpen": bool(options.top_open)}
+        self._supported = options.top_node is None and options.context is None and options.top_match is None
+        REC["instances"].append(self)
+
+    # -- direct writes from the DOM walk
+    @property
+    def open(self):
+        return self.__dict__.get("_open", 0)
+
+    @open.setter
+    def open(self, v):
+        self.__dict__["_open"] = v
+        if self._depth == 0:
+            self._note(["setOpen", v], None)
+
+    @property
+    def needs_block(self):
+        return self.__dict__.get("_needs_block", False)
+
+    @needs_block.setter
+    def needs_block(self, v):
+        self.__dict__["_needs_block"] = v
+        if self._depth == 0:
+            self._note(["setNeedsBlock", bool(v)], None)
+
+    def _note(self, ev, ret):
+        self._events.append(ev)
+        self._obs.append([ret if isinstance(ret, bool) else None, self.open, len(self.nodes)])
+
+    def _idx(self, cx):
+        for i, n in enumerate(self.nodes):
+            if n is cx:
+                return i
+        return None
+
+    def _mid(self, mark):
+        if id(mark) not in self._mark_ids:
+            self._mark_ids[id(mark)] = len(self._mark_ids)
+            self._keep.append(mark)     # keeps the object alive so that its id() is not reused
+        return self._mark_ids[id(mark)]
+
+    def _call(self, name, ev, *a, **k):
+        orig = getattr(ParseContext, name)
+        if self._depth > 0:
+            return orig(self, *a, **k)
+        event = ev()
+        self._depth += 1
+        try:
+            r = orig(self, *a, **k)
+        finally:
+            self._depth -= 1
+        self._note(event, r)
+        return r
+
+    def insert_node(self, node):
+        return self._call("insert_node", lambda: ["insertNode", self._info.node(node)], node)
+
+    def enter(self, type_, attrs=None, preserve_ws=None):
+        return self._call("enter", lambda: ["enter", self._info.nid[type_.name], _enc_attrs(attrs), preserve_ws], type_, attrs, preserve_ws)
+
+    def find_place(self, node):
+        return self._call("find_place", lambda: ["findPlace", self._info.node(node)], node)
+
+    def add_pending_mark(self, mark):
+        return self._call("add_pending_mark", lambda: ["addPending", self._mid(mark), self._info.mark(mark)], mark)
+
+    def remove_pending_mark(self, mark, upto):
+        return self._call("remove_pending_mark", lambda: ["removePending", self._mid(mark), self._info.mark(mark), self._idx(upto)], mark, upto)
+
+    def sync(self, to_):
+        return self._call("sync", lambda: ["sync", self._idx(to_)], to_)
+
+    def close_extra(self, open_end=False):
+        return self._call("close_extra", lambda: ["closeExtra", bool(open_end)], open_end)
+
+    def enter_inner(self, *a, **k):
+        if self._depth == 0:
+            self._supported = False      # never called by the DOM walk directly
+        return ParseContext.enter_inner(self, *a, **k)
+
+    def finish(self):
+        self._depth += 1
+        try:
+            self._result = ParseContext.finish(self)
+        finally:
+            self._depth -= 1
+        return self._result
+
+
+def recorded(info, fn):
+    """run fn() with the recording subclass installed; returns (outcome, recorder instances)"""
+    REC["info"], REC["instances"] = info, []
+    saved = from_dom_mod.ParseContext
+    from_dom_mod.ParseContext = RecordingParseContext
+    try:
+        res = outcome(fn, 5.0)
+    finally:
+        from_dom_mod.ParseContext = saved
+    return res, REC["instances"]
+
+
+def placement_request(info, sid, pc):
+    return {"op": "placement", "s": sid, "wsPre": [info.schema.nodes[n].whitespace == "pre" for n in info.node_names],
+            "isOpen": pc._init["isOpen"], "pw": pc._init["pw"], "topOpen": pc._init["topOpen"], "events": pc._events}
+
+
+def placement_compare(ctx, replay, info, pc, out, kind):
+    """model answer against the recorded run: the per-event observations and the final document / fragment"""
+    ctx.count("placement:" + kind)
+    ctx.count("placement_events", len(pc._events))
+    if out.get("obs") != pc._obs:
+        k = next((i for i, (a, b) in enumerate(zip(out.get("obs") or [], pc._obs)) if a != b), min(len(out.get("obs") or []), len(pc._obs)))
+        ctx.mismatch("placement-observation", dict(replay, event_index=k, event=pc._events[k] if k < len(pc._events) else None),
+                     pc._obs[k] if k < len(pc._obs) else None, (out.get("obs") or [None] * (k + 1))[k] if out.get("obs") and k < len(out["obs"]) else out.get("err", out))
+        return
+    res = pc._result
+    if isinstance(res, Node):
+        want = info.node(res)
+        got = out.get("doc")
+    else:
+        want = info.frag(res)
+        got = out.get("frag")
+    if got != want:
+        ctx.mismatch("placement-result", replay, want, got if got is not None else out)
+    else:
+        ctx.count("placement:agree")
+
 def run(ctx):
     core.lean_phase(ctx)
     rng = ctx.rng
@@ -153,11 +458,23 @@ def run(ctx):
     cschema = context_schema()
     parse_schemas = [("basic", basic_schema), ("list", list_schema), ("context", cschema)]
     parsers = {name: DOMParser.from_schema(s) for name, s in parse_schemas}
+    infos = {"basic": schemas.by_name("basic"), "list": schemas.by_name("list"), "context": codec.SchemaInfo(cschema, "context")}
+    # further schemas for the import checks (validity oracle + placement tie): family variants with parse rules and a
+    # schema whose content expressions need filling
+    extra_schemas = [(n, schemas.by_name(n).schema) for n in ("title", "heading-body", "iso", "marks-on-doc", "marks-x")]
+    extra_schemas.append(("fill", fill_schema()))
+    for n, sch in extra_schemas:
+        infos[n] = schemas.by_name(n) if n != "fill" else codec.SchemaInfo(sch, "fill")
+        parsers[n] = DOMParser.from_schema(sch)
+    preqs, pmetas = [], []
+    cinfo = infos["context"]
+    ctx.guard(lambda: context_tie(ctx, [schemas.by_name("basic"), schemas.by_name("list"), cinfo, schemas.by_name("table"),
+                                        schemas.by_name("marks-x")]), "context_tie")
     # ---- import: total and valid
     for _ in range(ctx.budget(250, 2500)):
         if ctx.time_left() < 0:
             break
-        name, schema = rng.choice(parse_schemas)
+        name, schema = rng.choice(parse_schemas) if rng.random() < 0.65 else rng.choice(extra_schemas)
         html = gen_html(rng)
         replay = {"schema": name, "html": html}
         ctx.case(["parse", name, html], nontrivial=bool(html.strip()), sample={"op": "from_html", "schema": name, "html": html[:200]})
@@ -166,6 +483,23 @@ def run(ctx):
         if st != "ok":
             ctx.violation("parse-" + ("hang" if st == "hang" else "raises"), f"parsing an HTML fragment did not return a document: {j}", replay)
             continue
+        # the same parse once more, recorded, for the placement-core tie (and a parse_slice of the same DOM)
+        info = infos[name]
+        sid = ctx.driver.add_schema(info)
+        dom = lxml.html.fragment_fromstring(html, create_parent="document-fragment")
+        (st_r, doc_r), pcs = recorded(info, lambda: parsers[name].parse(dom))
+        if st_r == "ok" and len(pcs) == 1 and pcs[0]._supported and doc_r.to_json() == j:
+            preqs.append(placement_request(info, sid, pcs[0]))
+            pmetas.append((replay, info, pcs[0], "parse"))
+        else:
+            ctx.count("placement:not-recorded")
+        if rng.random() < 0.5:
+            (st_s, sl), pcs = recorded(info, lambda: parsers[name].parse_slice(dom))    # `dom` now carries the lxmltext nodes
+            if st_s == "ok" and len(pcs) == 1 and pcs[0]._supported:
+                preqs.append(placement_request(info, sid, pcs[0]))
+                pmetas.append((dict(replay, slice=True, open=[sl.open_start, sl.open_end]), info, pcs[0], "parse_slice"))
+            else:
+                ctx.count("placement:slice-" + st_s)
         stn, node = outcome(lambda: Node.from_json(schema, j))
         prob = validator(schema).problem(j) if stn == "ok" else "from_json failed"
         stc, err = outcome(node.check) if stn == "ok" else ("internal", "")
@@ -191,6 +525,36 @@ def run(ctx):
             walk(node, ["doc"])
             if bad:
                 ctx.violation("context-rule", "a context-restricted parse rule was applied where the open ancestors do not match, or not applied where they do: " + bad[0], dict(replay, doc=j))
+    # fixed edge cases, tie only: the real parser returns an INVALID document here (upstream behaviour, see strip_schema)
+    sinfo = codec.SchemaInfo(strip_schema(), "strip")
+    sparser = DOMParser.from_schema(sinfo.schema)
+    for html in EDGE_HTML:
+        sid = ctx.driver.add_schema(sinfo)
+        dom = lxml.html.fragment_fromstring(html, create_parent="document-fragment")
+        (st_r, doc_r), pcs = recorded(sinfo, lambda: sparser.parse(dom))
+        if st_r == "ok" and len(pcs) == 1 and pcs[0]._supported:
+            preqs.append(placement_request(sinfo, sid, pcs[0]))
+            pmetas.append(({"schema": "strip", "html": html}, sinfo, pcs[0], "edge"))
+            st_c, _ = outcome(doc_r.check)
+            ctx.count("edge_case_real_doc_" + ("valid" if st_c == "ok" else "invalid"))
+    infos["strip"] = sinfo
+    if preqs:
+        # the decidable schema hypotheses of the placement theorems (Det, TextStable) on every schema of the tie
+        hyp_infos = list(infos.values())
+        houts = ctx.driver.run([{"op": "domHyps", "s": ctx.driver.add_schema(i)} for i in hyp_infos])
+        for i, o in zip(hyp_infos, houts):
+            h = o.get("ok") or {}
+            allh = h.get("det") and h.get("textStable") and h.get("leafOk")
+            ctx.count("theorem_hypotheses_hold" if allh else "theorem_hypotheses_fail:" + i.name)
+            if not allh:
+                ctx.notes.append(f"schema {i.name}: Det={h.get('det')} TextStable={h.get('textStable')} LeafOk={h.get('leafOk')} — "
+                                 "placement_finish_valid does not apply to it (placement_finish_marks does; placement_match_coherent needs Det)")
+        outs = ctx.driver.run(preqs)
+        for (replay, info, pc, kind), out in zip(pmetas, outs):
+            ctx.count("model_requests")
+            placement_compare(ctx, replay, info, pc, out, kind)
+            if kind == "parse_slice" and "open" in out and out["open"] != replay["open"]:
+                ctx.mismatch("placement-slice-open", replay, replay["open"], out["open"])
     # ---- export, escaping, round trip
     for name, schema in parse_schemas[:2]:
         info = schemas.by_name(name)
@@ -237,7 +601,9 @@ def run(ctx):
              "attributes, missing attributes, comments) parsed under the basic / list / context-rule schema, or a generated valid "
              "document of the bundled schemas serialised and — when whitespace-normal with attributes the rules carry — parsed back",
         level_note="partial: termination and crash-freedom of DOM walking, rule/selector/regex matching and lxml parsing live in external "
-                   "C libraries and `re` and are decided by search only; the placement core of the parser is not modelled")
+                   "C libraries and `re` and are decided by search only; modelled and tied on the import side: context expressions "
+                   "(matches_context, exact) and the placement core of ParseContext/NodeContext (recorded-event tie: the real parse's "
+                   "calls into the core are replayed through the model, per-event observations and the final document compared)")
 
 
 if __name__ == "__main__":
